@@ -467,6 +467,7 @@ pub fn err_class(e: &celestia_types::Error) -> String {
     let known = [
         ("Not enought voting power", "not-enough-power"),
         ("signature invalid", "bad-signature"),
+        ("bad signature", "bad-signature"),
         ("validator address", "address-mismatch"),
         ("No signature in CommitSig", "no-signature"),
         ("no signature in commit sig", "no-signature"),
